@@ -1,9 +1,126 @@
-"""Field types of the classes whose instances appear in symbolic pre-states."""
+"""Field types of the repo classes whose instances appear in symbolic pre-states.
+
+The tables are cross-checked against the real classes by `conformance()` (every run of a check):
+instantiating the real class must yield exactly these attribute names.
+"""
 from __future__ import annotations
 
 from pyvc.core import T
 
 
 def install(w):
-    from cfdppy.handler.dest import LostSegmentTracker
-    w.shapes[LostSegmentTracker] = {"lost_segments": T.IntDict}
+    from spacepackets.cfdp import ChecksumType, ConditionCode, PduConfig, TransactionId, TransmissionMode, SegmentationControl
+    from spacepackets.cfdp.pdu.finished import FinishedParams
+    from spacepackets.countdown import Countdown
+    from spacepackets.util import UnsignedByteField
+    from spacepackets.seqcount import ProvidesSeqCount
+
+    import cfdppy.handler.dest as D
+    import cfdppy.handler.source as S
+    from cfdppy.defs import CfdpState
+    from cfdppy.filestore import VirtualFilestore
+    from cfdppy.handler.common import _PositiveAckProcedureParams
+    from cfdppy.mib import (
+        CheckTimerProvider, DefaultFaultHandlerBase, IndicationCfg, LocalEntityCfg, RemoteEntityCfg, RemoteEntityCfgTable,
+    )
+    from cfdppy.request import PutRequest
+    from cfdppy.user import CfdpUserBase
+
+    sh = w.shapes
+    UBF = T.Obj(UnsignedByteField)
+    sh[D.LostSegmentTracker] = {"lost_segments": T.IntDict}
+    sh[IndicationCfg] = {k: T.Bool for k in [
+        "eof_sent_indication_required", "eof_recv_indication_required", "file_segment_recvd_indication_required",
+        "transaction_finished_indication_required", "suspended_indication_required", "resumed_indication_required"]}
+    sh[DefaultFaultHandlerBase] = {"_handler_dict": T.IntDict}
+    sh[LocalEntityCfg] = {"local_entity_id": UBF, "indication_cfg": T.Obj(IndicationCfg),
+                          "default_fault_handlers": T.Obj(DefaultFaultHandlerBase)}
+    sh[RemoteEntityCfg] = {
+        "entity_id": UBF, "max_file_segment_len": T.Opt(T.Int), "max_packet_len": T.Int, "closure_requested": T.Bool,
+        "crc_on_transmission": T.Bool, "default_transmission_mode": T.Enum(TransmissionMode),
+        "crc_type": T.Enum(ChecksumType), "positive_ack_timer_interval_seconds": T.Opaque,
+        "positive_ack_timer_expiration_limit": T.Int, "check_limit": T.Int, "disposition_on_cancellation": T.Bool,
+        "immediate_nak_mode": T.Bool, "nak_timer_interval_seconds": T.Opaque, "nak_timer_expiration_limit": T.Int,
+        "cfdp_version": T.Int,
+    }
+    sh[CheckTimerProvider] = {}
+    sh[ProvidesSeqCount] = {"max_bit_width": T.Int}
+    sh[_PositiveAckProcedureParams] = {"ack_timer": T.Opt(T.Obj(Countdown)), "ack_counter": T.Int}
+    # ---- destination handler
+    sh[D.DestStateWrapper] = {"state": T.Enum(CfdpState), "step": T.Enum(D.TransactionStep),
+                              "transaction_id": T.Opt(T.Obj(TransactionId)), "_num_packets_ready": T.Int}
+    sh[D._DestFileParams] = {"progress": T.Int, "segment_len": T.Int, "crc32": T.Opt(T.Bytes), "metadata_only": T.Bool,
+                             "file_size": T.Opt(T.Int), "file_name": T.Path, "file_size_eof": T.Opt(T.Int)}
+    sh[D._AckedModeParams] = {
+        "lost_seg_tracker": T.Obj(D.LostSegmentTracker), "metadata_missing": T.Bool, "last_start_offset": T.Int,
+        "last_end_offset": T.Int, "deferred_lost_segment_detection_active": T.Bool,
+        "procedure_timer": T.Opt(T.Obj(Countdown)), "nak_activity_counter": T.Int}
+    sh[D._DestFieldWrapper] = {
+        "transaction_id": T.Opt(T.Obj(TransactionId)), "remote_cfg": T.Opt(T.Obj(RemoteEntityCfg)),
+        "check_timer": T.Opt(T.Obj(Countdown)), "current_check_count": T.Int, "closure_requested": T.Bool,
+        "checksum_type": T.Enum(ChecksumType), "finished_params": T.Obj(FinishedParams),
+        "completion_disposition": T.Enum(D.CompletionDisposition), "pdu_conf": T.Obj(PduConfig),
+        "fp": T.Obj(D._DestFileParams), "acked_params": T.Obj(D._AckedModeParams),
+        "positive_ack_params": T.Obj(_PositiveAckProcedureParams)}
+    sh[D.DestHandler] = {
+        "cfg": T.Obj(LocalEntityCfg), "remote_cfg_table": T.Obj(RemoteEntityCfgTable), "states": T.Obj(D.DestStateWrapper),
+        "user": T.Obj(CfdpUserBase), "check_timer_provider": T.Obj(CheckTimerProvider),
+        "_params": T.Obj(D._DestFieldWrapper), "_pdus_to_be_sent": T.Queue}
+    sh[D.FsmResult] = {"states": T.Obj(D.DestStateWrapper)}
+    # ---- source handler
+    sh[S.SourceStateWrapper] = {"state": T.Enum(CfdpState), "step": T.Enum(S.TransactionStep), "_num_packets_ready": T.Int}
+    sh[S._SourceFileParams] = {"progress": T.Int, "segment_len": T.Int, "crc32": T.Opt(T.Bytes), "metadata_only": T.Bool,
+                               "file_size": T.Opt(T.Int), "empty_file": T.Bool}
+    sh[S._AckedModeParams] = {"step_before_retransmission": T.Opt(T.Enum(S.TransactionStep)),
+                              "segment_reqs_to_handle": T.Opt(T.Pair), "segment_req_index": T.Int}
+    sh[S._TransferFieldWrapper] = {
+        "transaction_id": T.Opt(T.Obj(TransactionId)), "check_timer": T.Opt(T.Obj(Countdown)),
+        "positive_ack_params": T.Obj(_PositiveAckProcedureParams), "cond_code_eof": T.Opt(T.Enum(ConditionCode)),
+        "ack_params": T.Obj(S._AckedModeParams), "fp": T.Obj(S._SourceFileParams),
+        "finished_params": T.Opt(T.Obj(FinishedParams)), "remote_cfg": T.Opt(T.Obj(RemoteEntityCfg)),
+        "closure_requested": T.Bool, "pdu_conf": T.Obj(PduConfig)}
+    sh[PutRequest] = {
+        "destination_id": UBF, "source_file": T.Opt(T.Path), "dest_file": T.Opt(T.Path),
+        "trans_mode": T.Opt(T.Enum(TransmissionMode)), "closure_requested": T.Opt(T.Bool),
+        "seg_ctrl": T.Opt(T.Enum(SegmentationControl)), "fault_handler_overrides": T.Opt(T.Opaque),
+        "flow_label_tlv": T.Opt(T.Opaque), "msgs_to_user": T.Opt(T.Opaque), "fs_requests": T.Opt(T.Opaque)}
+    sh[S.SourceHandler] = {
+        "states": T.Obj(S.SourceStateWrapper), "cfg": T.Obj(LocalEntityCfg), "user": T.Obj(CfdpUserBase),
+        "remote_cfg_table": T.Obj(RemoteEntityCfgTable), "seq_num_provider": T.Obj(ProvidesSeqCount),
+        "check_timer_provider": T.Obj(CheckTimerProvider), "_params": T.Obj(S._TransferFieldWrapper),
+        "_put_req": T.Opt(T.Obj(PutRequest)), "_pdus_to_be_sent": T.Queue}
+    sh[S.FsmResult] = {"states": T.Obj(S.SourceStateWrapper)}
+
+
+def conformance(w):
+    """Cross-check the shape tables against really constructed objects.  Returns a list of mismatches."""
+    import dataclasses
+    import cfdppy.handler.dest as D
+    import cfdppy.handler.source as S
+    from cfdppy.handler.common import _PositiveAckProcedureParams
+    from cfdppy.mib import IndicationCfg, LocalEntityCfg, RemoteEntityCfg
+    from cfdppy.request import PutRequest
+    from spacepackets.util import ByteFieldU8
+
+    problems = []
+
+    def chk(obj):
+        cls = type(obj)
+        shape = w.shape_of(cls)
+        names = set(vars(obj))
+        if shape is None:
+            problems.append(f"no shape for {cls.__name__}")
+        elif set(shape) != names:
+            problems.append(f"{cls.__name__}: shape {sorted(shape)} != real attributes {sorted(names)}")
+
+    for mk in [D.LostSegmentTracker, D.DestStateWrapper, D._DestFileParams.empty, D._AckedModeParams, D._DestFieldWrapper,
+               _PositiveAckProcedureParams, S.SourceStateWrapper, S._SourceFileParams.empty, S._AckedModeParams,
+               lambda: S._TransferFieldWrapper(ByteFieldU8(1)), IndicationCfg,
+               lambda: PutRequest(ByteFieldU8(1), None, None, None, None)]:
+        chk(mk())
+    for cls in [RemoteEntityCfg, LocalEntityCfg]:
+        shape = w.shape_of(cls)
+        fields = {f.name for f in dataclasses.fields(cls)}
+        if set(shape) != fields:
+            problems.append(f"{cls.__name__}: shape {sorted(shape)} != dataclass fields {sorted(fields)}")
+    return problems
